@@ -312,6 +312,8 @@ class CountingCuckooFilter(CuckooFilter):
 
     def _expand_logic(self, extra_fingerprint: "CountingCuckooBin") -> None:
         """the logic to acutally expand the cuckoo filter"""
+        # keep the current table: if the larger one cannot hold everything we go back to it
+        previous = (self._cuckoo_capacity, self._buckets, self._inserted_elements, self.__unique_elements)
         # get all the fingerprints
         fingerprints = self._setup_expand(extra_fingerprint)
         self.__unique_elements = 0  # this needs to be reset!
@@ -320,6 +322,7 @@ class CountingCuckooFilter(CuckooFilter):
             idx_1, idx_2 = self._indicies_from_fingerprint(elm.finger)
             res = self._insert_fingerprint_alt(elm.finger, idx_1, idx_2, elm.count)
             if res is not None:  # again, this *shouldn't* happen
+                self._cuckoo_capacity, self._buckets, self._inserted_elements, self.__unique_elements = previous
                 msg = "The CountingCuckooFilter failed to expand"
                 raise CuckooFilterFullError(msg)
 
